@@ -764,6 +764,10 @@ func (c *Float32Converter) To(obj Object) (interface{}, error) {
 	case *Int:
 		return float32(obj.value), nil
 	case *Float:
+		// (an infinity or a NaN is what it is in either width)
+		if obj.value > math.MaxFloat32 && !math.IsInf(obj.value, 1) || obj.value < -math.MaxFloat32 && !math.IsInf(obj.value, -1) {
+			return nil, errz.TypeErrorf("type error: value %v is out of range for float32", obj.value)
+		}
 		return float32(obj.value), nil
 	default:
 		return nil, errz.TypeErrorf("type error: expected float (%s given)", obj.Type())
